@@ -323,6 +323,21 @@ def R5_loop_cursor(run):
                   detail="curr_tick := next%s" % (" - 1" if ab else ""))
         ok = len(other) == 1 and is_call(other[0], "tick_index_from_sqrt_price") and m.step_field(strip(other[0])[2][0], "next_price")
         run.check("R5", "tick-mid-range[a_to_b=%d]" % ab, ok, "when the step ends between ticks the cursor is not tick_index_from_sqrt_price(step.next_price)", loc=sw.loc(), detail="curr_tick := tick(next_price)")
+        # ... and only when the price actually moved: a step that moves nothing keeps the cursor (after stopping exactly on a tick in an
+        # a_to_b swap the cursor is tick - 1 while the price is the tick's; recomputing it from the price would jump back over the tick)
+        mid_blocks = [b_ for (b_, _, t_) in m.updates("tick") if is_call(strip(t_), "tick_index_from_sqrt_price")]
+        moved = None
+        for at in A.atoms(sw, ctx, cut=True):
+            c = at.cond()
+            if c and c[0] in ("Ne", "Eq") and ((m.step_field(c[1], "next_price") and m.is_var(c[2], "price")) or (m.step_field(c[2], "next_price") and m.is_var(c[1], "price"))):
+                moved = at
+        ok = moved is not None and len(mid_blocks) == 1
+        if ok:
+            yes = moved.true_targets[0] if moved.cond()[0] == "Ne" else moved.false_targets[0]
+            no = moved.false_targets[0] if moved.cond()[0] == "Ne" else moved.true_targets[0]
+            ok = mid_blocks[0] in cfg.reach(sw, yes, cut_blocks=[moved.block]) and mid_blocks[0] not in cfg.reach(sw, no, cut_blocks=[moved.block] + mid_blocks[:0] + [b_ for b_ in [cs_[0] for cs_ in calls_to(sw, ends("compute_swap"), ctx=ctx, cut=True)]])
+        run.check("R5", "tick-mid-range-only-if-moved[a_to_b=%d]" % ab, ok, "the cursor is recomputed from the price even when the step did not move the price (`else if next_price != curr_sqrt_price`)", loc=sw.loc(),
+                  detail="next_price != current price => curr_tick := tick(next_price); otherwise unchanged")
         # array index advance condition
         conds = []
         for at in A.atoms(sw, ctx, cut=True):
@@ -352,4 +367,54 @@ def R5_loop_cursor(run):
     run.check("R5", "search-from-cursor", ok, "the next-tick search does not start from (current tick, pool spacing, a_to_b, current array index)", loc=sw.loc(), detail="get_next_initialized_tick_index(curr_tick, spacing, a_to_b, curr_array)")
 
 
-RULES = [R1_loaders, R2_proxy_and_order, R3_search_siblings, R4_sequence, R5_loop_cursor]
+def R6_array_grid(run):
+    run.title("R6", "tick arrays sit on one grid: check_is_valid_start_tick = start % (TICK_ARRAY_SIZE * spacing) == 0 inside the tick bounds, and below them only the single "
+                    "left-edge start MIN - (MIN % n + n); both array initialisers fail with InvalidStartTick unless it holds for (start, pool spacing)")
+    facts = run.facts
+    fn = facts.need_fn("state::tick::Tick::check_is_valid_start_tick")
+    run.touch(fn)
+    pv = prov_of(fn)
+    rets = [strip(x) for bi, bb in enumerate(fn.blocks) if bb["t"]["k"] == "ret" for x in leaves(pv.local(0, bi, len(bb["s"])))]
+
+    def is_n(t):
+        t = strip(t)
+        return t[0] == "bin" and t[1].startswith("Mul") and {const_val(t[2]), const_val(t[3])} & {88} and any(mentions(x, lambda s_: s_[0] == "param" and s_[1] == "tick_spacing") for x in (t[2], t[3]))
+    grid = [r for r in rets if r[0] == "bin" and r[1] == "Eq" and const_val(r[3]) == 0 and strip(r[2])[0] == "bin" and strip(r[2])[1] == "Rem" and is_param(strip(r[2])[2], "tick_index") and is_n(strip(r[2])[3])]
+    edge = []
+    for r in rets:
+        if r[0] == "bin" and r[1] == "Eq" and is_param(r[2], "tick_index"):
+            e = strip(r[3])
+            if e[0] == "bin" and e[1].startswith("Sub") and const_val(e[2]) == -443636:
+                inner = strip(e[3])
+                if inner[0] == "bin" and inner[1].startswith("Add") and is_n(inner[3]):
+                    rm = strip(inner[2])
+                    if rm[0] == "bin" and rm[1] == "Rem" and const_val(rm[2]) == -443636 and is_n(rm[3]):
+                        edge.append(r)
+    ok = len(grid) == 1 and len(edge) == 1 and any(const_val(r) == 0 for r in rets) and len(rets) == 3
+    run.check("R6", "valid-start-tick", ok, "check_is_valid_start_tick returns %s; expected tick %% (88 * spacing) == 0, the left-edge start, or false" % [sh(r, 70) for r in rets], loc=fn.loc(),
+              detail="start % (88 * spacing) == 0 | start == MIN - (MIN % n + n) | false")
+    ats = A.atoms(fn)
+    oob = [at for at in ats if is_call(at.term, "check_is_out_of_bounds") and is_param(strip(at.term)[2][0], "tick_index")]
+    gt = [at for at in ats if at.cond() and at.cond()[0] == "Gt" and is_param(at.cond()[1], "tick_index") and const_val(at.cond()[2]) == -443636 and at.true_ret and all(const_val(x) == 0 for x in at.true_ret)]
+    run.check("R6", "edge-case-guards", len(oob) == 1 and len(gt) == 1, "check_is_valid_start_tick lost its out-of-bounds / above-minimum guards", loc=fn.loc(), detail="out of bounds && tick > MIN => false")
+    for path in ("state::fixed_tick_array::FixedTickArray::initialize", "state::dynamic_tick_array::DynamicTickArray::initialize"):
+        g = facts.fn(path)
+        if g is None:
+            cands = [x for x in facts.fn_list if x.path.endswith("::initialize") and ("fixed_tick_array" in x.path or "dynamic_tick_array" in x.path) and ("Fixed" in path) == ("fixed_tick_array" in x.path)]
+            g = cands[0] if len(cands) == 1 else None
+        if g is None:
+            run.missing("R6", "initializer@" + path.rsplit("::", 2)[-2], "tick array initialiser %s not found" % path)
+            continue
+        run.touch(g)
+        ok = False
+        stores = [bi for bi, bb in enumerate(g.blocks) for st in bb["s"] if st["k"] == "=" and "p" in st["p"] and any(isinstance(e, dict) and e.get("f") == "start_tick_index" for e in st["p"]["p"])]
+        stores += [bi for bi, t in g.calls() if (callee_path(t) or "").endswith("copy_from_slice")]   # the byte-mapped initialiser writes through slices
+        for at in A.atoms(g):
+            if is_call(at.term, "check_is_valid_start_tick") and at.false_fail and "InvalidStartTick" in at.false_codes:
+                a_ = strip(at.term)[2]
+                ok = is_param(a_[0], "start_tick_index") and arg_name(a_[1]) == "tick_spacing" and bool(stores) and all(A.guarded_by(g, at, b_) for b_ in stores)
+        run.check("R6", "initializer@" + g.path.rsplit("::", 2)[-2], ok, "%s does not refuse an invalid start tick (check_is_valid_start_tick(start, pool.tick_spacing)) before storing it" % g.path, loc=g.loc(),
+                  detail="!valid start => InvalidStartTick, before start_tick_index is stored")
+
+
+RULES = [R1_loaders, R2_proxy_and_order, R3_search_siblings, R4_sequence, R5_loop_cursor, R6_array_grid]
